@@ -10,6 +10,7 @@ import (
 	"strings"
 	"testing"
 	"time"
+	"verif/fold"
 
 	"github.com/alicebob/sqlittle"
 	_ "github.com/alicebob/sqlittle/driver"
@@ -119,7 +120,7 @@ func run(r *vt.Run, t vt.TB, s spec) {
 		pool = allCols
 	}
 	quote := func(c string) string {
-		switch strings.ToLower(c) {
+		switch fold.Lower(c) {
 		case "rowid", "oid":
 			return c
 		}
@@ -277,7 +278,7 @@ func run(r *vt.Run, t vt.TB, s spec) {
 		cols, cerr := rows.Columns()
 		if cerr != nil {
 			surfaced = cerr
-		} else if s.Bad == "" && !strings.EqualFold(strings.Join(cols, "\x00"), strings.Join(expanded, "\x00")) {
+		} else if s.Bad == "" && !fold.Equal(strings.Join(cols, "\x00"), strings.Join(expanded, "\x00")) {
 			rows.Close()
 			r.Violation(t, s, "columns-differ", "%s: database/sql reports columns %q, the native column list is %q", query, cols, expanded)
 			return
@@ -436,7 +437,7 @@ func runPrepared(r *vt.Run, t vt.TB, s spec, db *sql.DB, path, query string, exp
 		surfaced := err
 		if err == nil {
 			cols, _ := rows.Columns()
-			if s.Bad == "" && wantErr == nil && !strings.EqualFold(strings.Join(cols, "\x00"), strings.Join(expanded, "\x00")) {
+			if s.Bad == "" && wantErr == nil && !fold.Equal(strings.Join(cols, "\x00"), strings.Join(expanded, "\x00")) {
 				rows.Close()
 				r.Violation(t, s, "columns-differ", "%s (prepared statement, round %d, after %q): database/sql reports columns %q, the native column list is %q", query, round, alter, cols, expanded)
 				return
